@@ -47,6 +47,13 @@ func main() {
 			os.Exit(2)
 		}
 		fmt.Print(zv.DumpFieldTable(p))
+	case "dump-types":
+		p, err := zv.Load("/repo", "", "")
+		if err != nil {
+			fmt.Println(err)
+			os.Exit(2)
+		}
+		fmt.Print(zv.DumpTypeTable(p))
 	case "dump-funcs":
 		p, err := zv.Load("/repo", "", "")
 		if err != nil {
